@@ -36,6 +36,7 @@ def model_check(ctx, thorough):
     # the invariants have teeth on the model: with the code's deviations switched on TLC must find the
     # state invariant / step clause failing (this run says nothing about the code)
     shown = {}
+    ctx.cov["deviations_shown_on_model"] = shown
     if not thorough:
         return
     for dev, inv in (("update-no-normal-check", "AtMostOneNormal"), ("delete-am-notfound", "DeleteAbsent")):
@@ -45,7 +46,23 @@ def model_check(ctx, thorough):
             raise vf.Inconclusive("model with deviation %s does not violate %s: the invariant has no teeth\n%s"
                                   % (dev, inv, r.out[-2000:]))
         shown[dev] = {"violates": inv, "states_to_counterexample": r.distinct}
-    ctx.cov["deviations_shown_on_model"] = shown
+
+
+def conc_model(ctx):
+    """ElectricConc.tla: UpdateMode / AddMode / CreateMode split at check / write with the model lock as a
+    variable.  Must hold as documented; with UpdateMode on a read lock TLC must refute AtMostOneNormal.
+    Returns the file with the pairs it prints for the forced schedules."""
+    r = ctx.mc("ElectricConc", "ElectricConc.cfg", consts={"Dev": "{}"}, workers=1, timeout=600, deadlock=False)
+    pairs = r.cases()
+    if len(pairs) < 12:
+        raise vf.Inconclusive("ElectricConc printed only %d cases\n%s" % (len(pairs), r.out[-2000:]))
+    bad = ctx.tlc("ElectricConc", "ElectricConc.cfg", consts={"Dev": '{"update-rlock"}'}, workers=1, timeout=600,
+                  deadlock=False)
+    if "AtMostOneNormal" not in bad.violated:
+        raise vf.Inconclusive("UpdateMode on a read lock is not refuted by the concurrent model\n%s" % bad.out[-2000:])
+    ctx.cov.setdefault("deviations_shown_on_model", {})["update-rlock"] = {"violates": "AtMostOneNormal",
+                                                            "states_to_counterexample": bad.distinct}
+    return ctx.write_ndjson("pairs.ndjson", pairs), len(pairs)
 
 
 def gen_cases(ctx, thorough):
@@ -149,6 +166,12 @@ def trace_check(ctx, obs_path, label, each):
                     sig = "C19/%s/%s/%s/%s" % (o["api"], NAMES.get(o["op"]["op"], o["op"]["op"]), clause, op_class(o["op"]))
                     what = ("step %d of sequence %d through the %s: clause '%s' of C19 false on what the real code did"
                             % (o["step"], o["prog"], "Model API" if o["api"] == "model" else "gRPC servers", clause))
+                elif o["kind"] == "pair":
+                    sig = "C19/concurrent/pair-%s+%s/%s" % (NAMES[o["ops"][0]["op"]], NAMES[o["ops"][1]["op"]], clause)
+                    what = ("forced schedule, case %d rep %d (%s and %s through %s, parked between check and write; "
+                            "normal mode before: %s): clause '%s' of C19 false"
+                            % (o["case"], o["rep"], NAMES[o["ops"][0]["op"]], NAMES[o["ops"][1]["op"]],
+                               "/".join(o["apis"]), o["init"], clause))
                 else:
                     sig = "C19/concurrent/%s/%s" % (o["kind"] + ("-" + o["part"] if o["kind"] == "cclear" else ""), clause)
                     what = ("run %d round %d of the concurrent part (%s line): clause '%s' of C19 false"
@@ -193,21 +216,29 @@ def run(ctx):
     cobs_path = ctx.path("obs-conc.ndjson")
     runs, rounds, nops = (3000, 10, 4) if thorough else (150, 8, 4)
     movers, clears, forced = (60, 2000, 1500) if thorough else (6, 700, 150)
+    ppath, npairs = conc_model(ctx)
+    reps, stress, iters = (40, 40, 2000) if thorough else (4, 4, 500)
     p = ctx.run_harness(["conc", "-out", cobs_path, "-runs", str(runs), "-rounds", str(rounds), "-ops", str(nops),
-                         "-movers", str(movers), "-clears", str(clears), "-forced", str(forced)],
+                         "-movers", str(movers), "-clears", str(clears), "-forced", str(forced),
+                         "-pairs", ppath, "-reps", str(reps), "-meet-ms", "100",
+                         "-stress", str(stress), "-stress-iters", str(iters)],
                         timeout=3000, cmd="electric", check=False)
     if p.crash:
         ctx.violation("C19/crash/concurrent", "the process died in the concurrent part: " + p.crash["message"], p.crash)
         return
     if p.returncode != 0:
         raise vf.Inconclusive("harness electric conc failed rc=%d:\n%s" % (p.returncode, p.stdout[-3000:]))
-    c = {"quiesce": 0, "mstream": 0, "aevent": 0, "cclear": 0, "cclear-ok": 0, "undrained": 0, "calls": 0}
+    c = {"quiesce": 0, "mstream": 0, "aevent": 0, "cclear": 0, "cclear-ok": 0, "undrained": 0, "calls": 0,
+         "pair": 0, "pair-met": 0, "cnormal": 0}
 
     def each_conc(k, n, o):
         c[o["kind"]] += 1
         if o["kind"] == "cclear":
             c["cclear-ok"] += 1 if o["err"] == "OK" else 0
             ctx.distinct(("cclear", o["part"], o["api"], o["err"], o["ret"]["m"]["id"]))
+        if o["kind"] == "pair":
+            c["pair-met"] += 1 if o["arrivals"] >= 2 else 0
+            ctx.distinct(("pair", o["case"], o["apis"], o["errs"]))
         if o["kind"] != "quiesce":
             return
         c["undrained"] += 0 if o["drained"] else 1
@@ -242,6 +273,8 @@ def run(ctx):
                              "streamed_tables_checked": c["mstream"],
                              "streamed_active_modes_checked": c["aevent"],
                              "clear_responses_checked": c["cclear"], "clear_responses_ok": c["cclear-ok"],
+                             "forced_pairs_of_normal_writers": c["pair"], "pair_cases_from_ElectricConc": npairs,
+                             "tables_read_after_becoming_normal": c["cnormal"],
                              "calls": c["calls"],
                              "quiescent_points_with_streams_not_caught_up": c["undrained"]}
     ctx.cov["traces_validated_against_impl"] += runs
